@@ -9,12 +9,15 @@
        function of its own tokens only; hence writing any token of one table leaves what every other table denotes
        unchanged — copied and conjugated tables share no state with their sources; and parse() never raises the TypeError
        of finding F1 (no token is converted twice).
+   (3) REFINEMENT (Dec/HeapRefine.v): the object-level algorithm computes exactly the tables of the value model, for every
+       statement list on which the value model succeeds — so every theorem about Dec/Post.v (C01, C03, C05, the copy law)
+       is a theorem about what the object-level algorithm leaves in the Token objects.
    PARTIAL: queries are modelled as pure readers of that state (functions hres -> value), so "a query never changes
    the parser" holds in the model by construction and is established for the implementation by the executed part
    of the check (query histories with mutation of the results, against a fresh parse); that the heap model
    allocates and shares exactly where CPython/Lark do is the correspondence on the object graph (ids). *)
 From Coq Require Import String List Bool ZArith QArith.
-From DL Require Import Lib.Val Lib.PyDict Decay.Conj Dec.Tables Dec.Syntax Dec.Post Dec.Heap Dec.HeapProofs Dec.HeapValues.
+From DL Require Import Lib.Val Lib.PyDict Decay.Conj Dec.Tables Dec.Syntax Dec.Post Dec.Heap Dec.HeapProofs Dec.HeapValues Dec.HeapRefine.
 Import ListNotations.
 Close Scope Q_scope.
 Open Scope string_scope.
@@ -85,6 +88,27 @@ Theorem C08_no_token_converted_twice : forall ccdb sc inc f, parse_heap ccdb sc 
 Proof. exact parse_heap_no_type_error. Qed.
 Print Assumptions C08_no_token_converted_twice.
 
+(* REFINEMENT: whenever the value model of parse() (Dec/Post.v: the model the theorems of C01, C03, C05 and the copy law above
+   are about) yields tables, the object-level algorithm — new Tree objects over the same Tokens, copy.deepcopy with its memo,
+   in-place writes to Token.value by both visitors and by the CopyDecay renaming — ends without error in a state whose decay trees
+   read back (through the model of get_decay_mother_name / get_branching_fraction / get_final_state_particle_names /
+   get_model_name / get_model_parameters) as exactly those tables.  params_ok: no parameter word is the empty string (the
+   grammar's LABEL is non-empty). *)
+Theorem C08_object_level_refines_value_model : forall ccdb sc inc f T,
+  params_ok f = true -> parse_post ccdb sc inc f = inl T ->
+  exists r, parse_heap ccdb sc inc f = inl r /\ tables_of r = Some T.
+Proof. exact parse_heap_refines. Qed.
+Print Assumptions C08_object_level_refines_value_model.
+
+(* the CopyDecay law at object level: the tables the CopyDecay pass creates denote (as value trees) the last table named OLD
+   with the mother renamed to NEW, and the pass changes what no existing table reads as *)
+Theorem C08_copy_law_at_object_level : forall D s copies cps s',
+  separated D -> bounded_by s D -> copy_decays copies D s = (cps, s') ->
+  (forall t, In t D -> read_table (h_toks s') t = read_table (h_toks s) t) /\
+  map (erase (h_toks s')) cps = copies_v (h_toks s) D copies.
+Proof. exact copy_decays_tables. Qed.
+Print Assumptions C08_copy_law_at_object_level.
+
 (* non-vacuity: a file with a shared ModelAlias, a CopyDecay and a CDecay is parsed (no error), its heap state denotes the
    tables of the value model, and two of its tables are different objects with tokens *)
 Definition c08_example : list stmt :=
@@ -97,5 +121,6 @@ Example C08_heap_example :
   | inl r => tables_of r = match parse_post (fun n => n) (fun _ => None) true c08_example with inl T => Some T | inr _ => None end
              /\ length (r_decays r) = 3 /\ length (flat_map tok_ids (r_decays r)) = 39
   | inr _ => False
-  end.
-Proof. vm_compute. repeat split. Qed.
+  end /\ params_ok c08_example = true /\
+  (exists T, parse_post (fun n => n) (fun _ => None) true c08_example = inl T /\ length T = 3).
+Proof. vm_compute. repeat split. eexists. split; reflexivity. Qed.
